@@ -42,11 +42,18 @@ def run_pipeline(job):
                        'msg': ('%s: %s' % (type(e).__name__, e))[:160]})
         return None
     c = stage('parse', lambda: passes.parse_prog(prog, text))
+    # the parsed circuit handed to the execution entry point as it is (declared values): the entry point has its own
+    # order of passes, and what it accepts must not depend on that order
+    direct = {'cls': 'skipped', 'msg': ''}
+    if c is not None and not ovr:
+        parsed = c
+        dobs = execrun.observe(lambda: run_jaqal_circuit(parsed), seed=1)
+        direct = {'cls': dobs['cls'], 'msg': dobs['msg']}
+    hooked = False
     if c is not None:
         c = stage('let', lambda: fill_in_let(c, override_dict=passes.ovr_dict(ovr) if ovr else None))
     if c is not None:
         c = stage('macro', lambda: expand_macros(c))
-    hooked = False
     if c is not None:
         obs = execrun.observe(lambda: run_jaqal_circuit(c), seed=1)
         stages.append({'stage': 'run', 'cls': obs['cls'], 'msg': obs['msg']})
@@ -54,7 +61,7 @@ def run_pipeline(job):
         hooked = obs['hooked']
     while len(stages) < 4:
         stages.append({'stage': ['parse', 'let', 'macro', 'run'][len(stages)], 'cls': 'skipped', 'msg': ''})
-    return {'id': job['id'], 'model': passes.compress(prog), 'ovr': ovr, 'stages': stages, 'applies': applies, 'hooked': hooked,
+    return {'id': job['id'], 'model': passes.compress(prog), 'ovr': ovr, 'stages': stages, 'applies': applies, 'hooked': hooked, 'direct': direct,
             'text': text + ' | override %s | %s' % (passes.ovr_dict(ovr), [(s['stage'], s['cls']) for s in stages])}
 
 
